@@ -234,6 +234,233 @@ theorem pegSkipTo_bnd {P : Program} (hr : PBnd len run) (skip : Bool) (e p' : Na
         exact (hr _ _ _ _ hq he).1
       · simp at h
 
+/-! ### operator tables -/
+
+def opsLe (len : Nat) : List OpEntry → Bool
+  | [] => true
+  | o :: ops => spansLe len o.op && opsLe len ops
+
+/-- all trees on the operand stack only contain values whose spans lie inside the input -/
+def treesLe (len : Nat) : List OTree → Bool
+  | [] => true
+  | t :: ts => spansLe len t.toVal && treesLe len ts
+
+theorem opsLe_drop (len : Nat) : ∀ (ops : List OpEntry) (k : Nat), opsLe len ops = true →
+    opsLe len (ops.drop k) = true := by
+  intro ops
+  induction ops with
+  | nil => intro k _; simp [opsLe]
+  | cons o ops ih =>
+    intro k h
+    cases k with
+    | zero => simpa using h
+    | succ k => simp only [opsLe, Bool.and_eq_true] at h; simpa using ih k h.2
+
+theorem decodeOp_le {len : Nat} {v : Val} {o : OpEntry} (h : decodeOp v = some o)
+    (hv : spansLe len v = true) : spansLe len o.op = true := by
+  unfold decodeOp at h
+  split at h
+  · simp at h; subst h
+    simp only [spansLe, spansLeList, Bool.and_eq_true] at hv
+    exact hv.2.2.1
+  · simp at h
+
+theorem decodePost_le {len : Nat} {v : Val} {p : Int} {op : Val} (h : decodePost v = some (p, op))
+    (hv : spansLe len v = true) : spansLe len op = true := by
+  unfold decodePost at h
+  split at h
+  · simp at h; obtain ⟨_, h2⟩ := h; subst h2
+    simp only [spansLe, spansLeList, Bool.and_eq_true] at hv
+    exact hv.2.1
+  · simp at h
+
+theorem popOperator_le {len : Nat} {ops ops' : List OpEntry} {xs xs' : List OTree}
+    (h : popOperator ops xs = some (ops', xs')) (ho : opsLe len ops = true)
+    (hx : treesLe len xs = true) : opsLe len ops' = true ∧ treesLe len xs' = true := by
+  unfold popOperator at h
+  split at h
+  · simp at h
+  · rename_i o rest
+    simp only [opsLe, Bool.and_eq_true] at ho
+    split at h
+    · split at h
+      · simp at h; obtain ⟨h1, h2⟩ := h; subst h1 h2
+        simp only [treesLe, Bool.and_eq_true] at hx
+        exact ⟨ho.2, by simp [treesLe, OTree.toVal, mkInfix, spansLe, spansLeFields, hx.1, hx.2.1, hx.2.2, ho.1]⟩
+      · simp at h
+    · split at h
+      · simp at h; obtain ⟨h1, h2⟩ := h; subst h1 h2
+        simp only [treesLe, Bool.and_eq_true] at hx
+        exact ⟨ho.2, by simp [treesLe, OTree.toVal, mkPrefix, spansLe, spansLeFields, hx.1, hx.2, ho.1]⟩
+      · simp at h
+
+theorem reducePost_le {len : Nat} (prec : Int) : ∀ (ops : List OpEntry) (xs : List OTree) (ops' : List OpEntry)
+    (xs' : List OTree), reducePost prec ops xs = some (ops', xs') → opsLe len ops = true →
+    treesLe len xs = true → opsLe len ops' = true ∧ treesLe len xs' = true := by
+  intro ops
+  induction ops with
+  | nil => intro xs ops' xs' h ho hx; simp [reducePost] at h; obtain ⟨h1, h2⟩ := h; subst h1 h2; exact ⟨ho, hx⟩
+  | cons o ops ih =>
+    intro xs ops' xs' h ho hx
+    unfold reducePost at h
+    split at h
+    · split at h
+      · simp at h
+      · rename_i hpop
+        have := popOperator_le hpop ho hx
+        simp only [opsLe, Bool.and_eq_true] at ho
+        exact ih _ _ _ h ho.2 this.2
+    · simp at h; obtain ⟨h1, h2⟩ := h; subst h1 h2; exact ⟨ho, hx⟩
+
+theorem reduceInfix_le {len : Nat} (prec : Int) : ∀ (ops : List OpEntry) (xs : List OTree) (res : InfixStep),
+    reduceInfix prec ops xs = some res → opsLe len ops = true → treesLe len xs = true →
+    (match res with
+     | .go ops' xs' => opsLe len ops' = true ∧ treesLe len xs' = true
+     | .conflict ops' xs' => opsLe len ops' = true ∧ treesLe len xs' = true) := by
+  intro ops
+  induction ops with
+  | nil => intro xs res h ho hx; simp [reduceInfix] at h; subst h; exact ⟨ho, hx⟩
+  | cons o ops ih =>
+    intro xs res h ho hx
+    unfold reduceInfix at h
+    split at h
+    · split at h
+      · simp at h
+      · rename_i hpop
+        have := popOperator_le hpop ho hx
+        simp only [opsLe, Bool.and_eq_true] at ho
+        exact ih _ _ h ho.2 this.2
+    · split at h
+      · simp at h; subst h; exact ⟨ho, hx⟩
+      · simp at h; subst h; exact ⟨ho, hx⟩
+
+theorem popAll_le {len : Nat} : ∀ (ops : List OpEntry) (xs xs' : List OTree), popAll ops xs = some xs' →
+    opsLe len ops = true → treesLe len xs = true → treesLe len xs' = true := by
+  intro ops
+  induction ops with
+  | nil => intro xs xs' h _ hx; simp [popAll] at h; subst h; exact hx
+  | cons o ops ih =>
+    intro xs xs' h ho hx
+    unfold popAll at h
+    split at h
+    · simp at h
+    · rename_i hpop
+      have := popOperator_le hpop ho hx
+      simp only [opsLe, Bool.and_eq_true] at ho
+      exact ih _ _ h ho.2 this.2
+
+theorem getLast?_le {len : Nat} : ∀ (xs : List OTree) (v : OTree), xs.getLast? = some v →
+    treesLe len xs = true → spansLe len v.toVal = true := by
+  intro xs
+  induction xs with
+  | nil => intro v h; simp at h
+  | cons x xs ih =>
+    intro v h hx
+    simp only [treesLe, Bool.and_eq_true] at hx
+    cases xs with
+    | nil => simp at h; subst h; exact hx.1
+    | cons y ys => exact ih v (by simpa [List.getLast?_cons_cons] using h) hx.2
+
+theorem finishTable_le {len : Nat} {ops : List OpEntry} {xs : List OTree} {marker : Nat} {v : OTree}
+    (h : finishTable ops xs marker = some v) (ho : opsLe len ops = true)
+    (hx : treesLe len xs = true) : spansLe len v.toVal = true := by
+  unfold finishTable at h
+  split at h
+  · simp at h
+  · rename_i xs' hp
+    exact getLast?_le _ _ h (popAll_le _ _ _ hp (opsLe_drop len ops _ ho) hx)
+
+theorem pegOT_bnd (hr : PBnd len run) (T : PTableExprs) :
+    ∀ fuel ph st v p', pegOT run T fuel ph st = some (.ok v p') → st.pos ≤ len → st.outerCp ≤ len →
+    opsLe len st.ops = true → treesLe len st.operands = true → p' ≤ len ∧ spansLe len v = true := by
+  intro fuel
+  induction fuel with
+  | zero => intro ph st v p' h; simp [pegOT] at h
+  | succ n ih =>
+    intro ph st v p' h hp hc ho hx
+    cases ph with
+    | pre =>
+      simp only [pegOT] at h
+      split at h
+      · exact ih _ _ _ _ h hp hc ho hx
+      · split at h
+        · simp at h
+        · exact ih _ _ _ _ h hp hc ho hx
+        · rename_i v1 p1 he
+          have h1 := hr _ _ _ _ he hp
+          split at h
+          · simp at h
+          · rename_i o hd
+            exact ih _ _ _ _ h h1.1 hc (by simp [opsLe, decodeOp_le hd h1.2, ho]) hx
+    | operand =>
+      simp only [pegOT] at h
+      split at h
+      · simp at h
+      · split at h
+        · simp at h
+        · split at h
+          · simp at h
+          · rename_i tree ht
+            simp at h; obtain ⟨a, b⟩ := h; subst a b
+            exact ⟨hc, finishTable_le ht ho hx⟩
+      · rename_i v1 p1 he
+        have h1 := hr _ _ _ _ he hp
+        exact ih _ _ _ _ h h1.1 hc ho (by simp [treesLe, OTree.toVal, h1.2, hx])
+    | post =>
+      simp only [pegOT] at h
+      split at h
+      · exact ih _ _ _ _ h hp hp ho hx
+      · split at h
+        · simp at h
+        · exact ih _ _ _ _ h hp hp ho hx
+        · rename_i v1 p1 he
+          have h1 := hr _ _ _ _ he hp
+          split at h
+          · simp at h
+          · rename_i prec op hd
+            split at h
+            · simp at h
+            · rename_i ops' operands' hred
+              have h2 := reducePost_le prec _ _ _ _ hred ho hx
+              split at h
+              · simp at h
+              · rename_i x rest
+                simp only [treesLe, Bool.and_eq_true] at h2
+                exact ih _ _ _ _ h h1.1 hc h2.1
+                  (by simp [treesLe, OTree.toVal, mkPostfix, spansLe, spansLeFields, h2.2.1, h2.2.2, decodePost_le hd h1.2])
+    | inf =>
+      simp only [pegOT] at h
+      split at h
+      · split at h
+        · simp at h
+        · rename_i tree ht
+          simp at h; obtain ⟨a, b⟩ := h; subst a b
+          exact ⟨hp, finishTable_le ht ho hx⟩
+      · split at h
+        · simp at h
+        · split at h
+          · simp at h
+          · rename_i tree ht
+            simp at h; obtain ⟨a, b⟩ := h; subst a b
+            exact ⟨hp, finishTable_le ht ho hx⟩
+        · rename_i v1 p1 he
+          have h1 := hr _ _ _ _ he hp
+          split at h
+          · simp at h
+          · rename_i o hd
+            split at h
+            · simp at h
+            · rename_i ops' operands' hred
+              have h2 := reduceInfix_le o.prec _ _ _ hred ho hx
+              split at h
+              · simp at h
+              · rename_i tree ht
+                simp at h; obtain ⟨a, b⟩ := h; subst a b
+                exact ⟨hc, finishTable_le ht h2.1 h2.2⟩
+            · rename_i ops' operands' hred
+              have h2 := reduceInfix_le o.prec _ _ _ hred ho hx
+              exact ih _ _ _ _ h h1.1 hc (by simp [opsLe, decodeOp_le hd h1.2, h2.1]) h2.2
+
 theorem lit_le (P : Program) (s : List Nat) (len : Nat) : spansLe len (P.lit s) = true := by
   unfold Program.lit; split <;> simp [spansLe]
 
@@ -379,5 +606,23 @@ theorem peg_bounded (P : Program) (inp : List Nat) (hm : MatcherBounded P) :
       simp only [peg] at h
       simp at h; obtain ⟨h1, h2⟩ := h; subst h1 h2
       exact ⟨hp, by cases c <;> simp [PyConst.toVal, spansLe]⟩
+    | tagged x tag =>
+      simp only [peg] at h
+      split at h
+      · simp at h
+      · simp at h
+      · rename_i v1 p1 hx
+        simp at h; obtain ⟨h1, h2⟩ := h; subst h1 h2
+        have := ih x p v1 p1 hx hp
+        refine ⟨this.1, ?_⟩
+        have hints : ∀ (t : List Int), spansLeList inp.length (t.map Val.int ++ [v1]) = true := by
+          intro t
+          induction t with
+          | nil => simp [spansLeList, this.2]
+          | cons i t ih2 => simp [spansLeList, spansLe, ih2]
+        simpa [spansLe] using hints tag
+    | optable pre operand mixfix post inf =>
+      simp only [peg] at h
+      exact pegOT_bnd ih _ _ _ _ _ _ h hp hp (by simp [opsLe]) (by simp [treesLe])
 
 end Sourcer
